@@ -9,7 +9,7 @@ RULE = ("conversions: positions sx,sy (scalars and arrays) anywhere in a scanned
         "dty (lab y = 0), dty<->dtyi, the dtyi masks in the three frames against a brute-force half-step rule, "
         "get_voxel_idx, the step grid, the sine fit; reconstructions: ny in [41,120] odd and even, 0-180 and 0-360 "
         "scans, point-like grain (Gaussian sigma 0.8 step along dty at dty_values_grain_in_beam) anywhere in the "
-        "disc, y0 offset up to +-10 steps, module's own shift/pad: arg-max within 1.5 px of sample_to_recon, "
+        "disc, y0 offset up to +-10 steps, module's own shift/pad: arg-max within 1.5 px of sample_to_recon and the module's LoG blob fit within 2 steps of the simulated position, "
         "linearity, workers in {1,2,5,16}, ROI masks; non-trivial = |y0 offset| >= 2 steps, or even ny, or position "
         ">= 0.5 radius from the axis; distinct = hash of the case")
 ASSUMPTIONS = ["positions exactly on a half-step boundary of the dtyi discretisation are excluded (counted)",
@@ -275,6 +275,19 @@ def check_recon(case, rec=None):
         fails.append(fail("position", "reconstruction maximum at (%d,%d), geometry predicts (%.2f,%.2f): %.2f px "
                           "apart; %s" % (ri, rj, pr[0], pr[1], d, where), what="argmax"))
     scale = np.abs(recon).max()
+    # the module's own blob finder must put the grain at the simulated sample position
+    ok, pos = guard(G.fit_sample_position_from_recon, recon, ystep)
+    if ok and pos is not None:
+        dpos = float(np.hypot(pos[0] - sx, pos[1] - sy)) / ystep
+        if dpos > 2.0:
+            fails.append(fail("position", "fit_sample_position_from_recon gives (%.2f, %.2f), simulated (%.2f, %.2f): "
+                              "%.2f steps apart; %s" % (pos[0], pos[1], sx, sy, dpos, where), what="blobfit"))
+        if rec is not None:
+            rec.note("max_blobfit_error_steps", dpos, "max")
+    elif not ok:
+        fails.append(exc_failure("fit_sample_position_from_recon", pos))
+    elif rec is not None:
+        rec.exclude("fit_sample_position_from_recon found no blob")
     # linearity with a second grain
     rng = np.random.RandomState(case["seed"] % (2 ** 32))
     r2 = rmax * np.sqrt(rng.random_sample())
